@@ -315,12 +315,11 @@ func (ro *RedisOutput) ResetStartPoint(ctx context.Context, runIds []string) err
 			return err
 		}
 		defer cli.Close()
-		for _, id := range ids {
-			err = checkpoint.DelCheckpoint(cli, ro.cfg.CheckpointName, id)
-			if err != nil {
-				ro.logger.Errorf("reset start point error : cp(%s), runId(%s), err(%v)", ro.cfg.CheckpointName, id, err)
-				return err
-			}
+		// all labels in one ascending order (the record StartPoint reads goes last)
+		err = checkpoint.DelCheckpoints(cli, ro.cfg.CheckpointName, ids)
+		if err != nil {
+			ro.logger.Errorf("reset start point error : cp(%s), runIds(%v), err(%v)", ro.cfg.CheckpointName, ids, err)
+			return err
 		}
 		if ro.bisyncEnabled() {
 			// in bisync mode the position also lives in the recovery state (frontier snapshot and
